@@ -57,6 +57,7 @@ static uint64_t *stat_slot (const char *key) {
 void vp_count (const char *key, uint64_t n) { *stat_slot (key) += n; }
 void vp_max (const char *key, uint64_t n) { char k[40]; snprintf (k, 40, "max:%s", key); uint64_t *p = stat_slot (k); if (*p < n) *p = n; }
 void vp_nontrivial (void) { cur_nontrivial = 1; }
+uint64_t vp_get (const char *key) { return *stat_slot (key); } /* counters live in the status page: they survive a restart of the shard */
 
 static void sanitize (char *s) { for (; *s; s++) if (*s == '\t' || *s == '\n' || *s == '\r') *s = ' '; }
 void vp_fail (const char *kind, const char *fmt, ...) {
